@@ -191,8 +191,12 @@ impl Directive {
                 let fields = caps
                     .name("fields")
                     .map(|c| {
+                        // the first capture group is the field itself; the
+                        // whole match also contains the `,` that separates
+                        // it from the next field
                         FIELD_FILTER_RE
-                            .find_iter(c.as_str())
+                            .captures_iter(c.as_str())
+                            .filter_map(|caps| caps.get(1))
                             .map(|c| field::Match::parse(c.as_str(), regex))
                             .collect::<Result<Vec<_>, _>>()
                     })
